@@ -62,7 +62,8 @@ Definition d_pipeline (op : string) (v : val) : option val :=
         | Some s, Some a, Some b => Some (ofbool (chk_same_assembly (N.to_nat k) s mode a b))
         | _, _, _ => None
         end
-    | VL [] => Some (VN 1)              (* the implementation panicked: reported by the p.* line of the same case *)
+    | VL [VN k; st; VN mode; ga; gb; rs] => Some (VN 1)   (* a pipeline panicked (! in place of its graph): the
+                                                             implementation side of the line is !, a spec-level failure *)
     | _ => None
     end
   else if String.eqb op "chk.unitig" then
@@ -70,9 +71,9 @@ Definition d_pipeline (op : string) (v : val) : option val :=
     | VL [VN k; st; VN mode; rs; g] =>
         match vbool st, v_lreads rs, v_graph g with
         | Some s, Some reads, Some g' => Some (ofbool (chk_unitig (N.to_nat k) s mode reads g'))
+        | Some _, Some _, None => match g with VBot => Some (VN 1) | _ => None end
         | _, _, _ => None
         end
-    | VL [] => Some (VN 1)
     | _ => None
     end
   else
@@ -80,8 +81,8 @@ Definition d_pipeline (op : string) (v : val) : option val :=
     | VL [VN k; st; VN thr; rs; g] =>
         match vbool st, v_lreads rs, v_graph g with
         | Some s, Some reads, Some g' => Some (ofbool (chk_graph_exact (N.to_nat k) s thr (map fst reads) g'))
+        | Some _, Some _, None => match g with VBot => Some (VN 1) | _ => None end
         | _, _, _ => None
         end
-    | VL [] => Some (VN 1)
     | _ => None
     end.
